@@ -1,2 +1,192 @@
-(* C09 -- placeholder until PortProofs.v lands. *)
-From ONL Require Import Elem.Port Elem.Red.
+(* C09 -- a port serialises at its line rate and tail-drops exactly at its limit; PortMonitor; REDPort.
+   Only statements, closed by the lemma that proves them, and their assumptions.
+   Vocabulary (Elem/Port.v, Elem/PortProofs.v): [port_run c s0 acts = Some (s, tr)] = acts is an admissible
+   execution from s0 ending in s with timed trace tr (every interleaving of puts and kernel micro-steps inside
+   an instant is an execution); [accepted tr] / [departures tr] = accepted arrivals / packets handed downstream,
+   with their instants; [dep_spec f arr] = the recurrence d_1 = a_1 + f p_1, d_k = max(a_k, d_(k-1)) + f p_k;
+   [txe c p] = 8*size/rate, 0 when rate <= 0; [tl_eq] = same packets in the same order, instants equal as
+   rationals; [port_held s] = packet in transmission ++ packet travelling in a granted get ++ store items.
+   The theorems about an arbitrary configuration c hold for every drop policy, in particular for
+   [port_cfg all_fixed ..] (Port) and [red_cfg all_fixed ..] (REDPort). *)
+From Coq Require Import ZArith QArith Qminmax List Bool.
+From ONL Require Import Elem.Packet Elem.StoreQ Elem.Port Elem.Red Elem.PortProofs Elem.RedProofs.
+Import ListNotations.
+
+(* The k-th accepted packet leaves at max(arrival_k, departure_(k-1)) + 8*size_k/rate, first in first out:
+   the departures so far, followed by one further departure per packet still held, are the recurrence. *)
+Theorem C09_port_departure_recurrence : forall (c : pcfg) (t0 : Q) (acts : list paction) (s : port) (tr : list pev),
+  port_run c (port0 t0) acts = Some (s, tr) ->
+  exists rest, tl_eq (dep_spec (txe c) (accepted tr)) (departures tr ++ rest) /\ map snd rest = port_held s.
+Proof. exact port_departure_recurrence. Qed.
+Print Assumptions C09_port_departure_recurrence.
+
+(* ... immediately (at its arrival instant) when the rate is 0 *)
+Theorem C09_port_rate0_departs_at_arrival : forall (c : pcfg) (t0 : Q) (acts : list paction) (s : port) (tr : list pev),
+  c_rate c <= 0 -> port_run c (port0 t0) acts = Some (s, tr) ->
+  exists rest, tl_eq (accepted tr) (departures tr ++ rest) /\ map snd rest = port_held s.
+Proof. exact port_rate0_departs_at_arrival. Qed.
+Print Assumptions C09_port_rate0_departs_at_arrival.
+
+(* a pending transmission deadline is never passed; the clock can advance only while the port transmits or is empty *)
+Theorem C09_port_never_late : forall (c : pcfg) (t0 : Q) (acts : list paction) (s : port) (tr : list pev),
+  Forall put_nonneg acts -> port_run c (port0 t0) acts = Some (s, tr) ->
+  forall p dl, psvc s = Some (p, dl) -> pnow s <= dl.
+Proof. exact port_never_late. Qed.
+Print Assumptions C09_port_never_late.
+
+Theorem C09_port_work_conserving : forall (c : pcfg) (t0 : Q) (acts : list paction) (s : port) (tr : list pev) (t : Q) s' outs,
+  port_run c (port0 t0) acts = Some (s, tr) -> port_act c s (PAdvance t) = Some (s', outs) ->
+  (exists p dl, psvc s = Some (p, dl) /\ t <= dl) \/ port_held s = [].
+Proof. exact port_work_conserving. Qed.
+Print Assumptions C09_port_work_conserving.
+
+(* Tail drop.  Byte limit: refused iff bytes held (waiting + in transmission) + size > qlimit; packet limit:
+   refused iff at least qlimit - 1 packets are waiting in the store; never when qlimit = None; a refusal changes
+   nothing but the counters, an acceptance enqueues the packet and adds its size. *)
+Theorem C09_port_drop_iff : forall rate qlimit lb eid t0 acts s tr p u s' outs,
+  let c := port_cfg all_fixed rate qlimit lb eid in
+  port_run c (port0 t0) acts = Some (s, tr) ->
+  port_act c s (PPut p u) = Some (s', outs) ->
+  (In (ODrop p) outs <->
+     match qlimit with
+     | None => False
+     | Some q => if lb then (sum_sizes (port_held s) + psize p > q)%Z
+                 else (Z.of_nat (length (items (pq s))) >= q - 1)%Z
+     end)
+  /\ (In (ODrop p) outs -> pq s' = pq s /\ pbytes s' = pbytes s /\ pdrop s' = (pdrop s + 1)%Z)
+  /\ (~ In (ODrop p) outs ->
+        pq s' = sq_put fifo_push (pnow s) p (pq s) /\ pbytes s' = (pbytes s + psize p)%Z /\ pdrop s' = pdrop s).
+Proof. exact port_drop_iff. Qed.
+Print Assumptions C09_port_drop_iff.
+
+Theorem C09_port_unlimited_never_drops : forall rate lb eid t0 acts s tr p u s' outs,
+  let c := port_cfg all_fixed rate None lb eid in
+  port_run c (port0 t0) acts = Some (s, tr) -> port_act c s (PPut p u) = Some (s', outs) -> ~ In (ODrop p) outs.
+Proof. exact port_unlimited_never_drops. Qed.
+Print Assumptions C09_port_unlimited_never_drops.
+
+(* hence occupancy never exceeds the limit (one place of a packet limit is the packet in transmission) *)
+Theorem C09_port_occupancy_le_limit : forall rate q lb eid t0 acts s tr,
+  let c := port_cfg all_fixed rate (Some q) lb eid in
+  Forall put_nonneg acts -> port_run c (port0 t0) acts = Some (s, tr) ->
+  if lb then (sum_sizes (port_held s) <= Z.max q 0)%Z
+  else (Z.of_nat (length (items (pq s))) <= Z.max (q - 1) 0)%Z /\ (Z.of_nat (length (port_held s)) <= Z.max q 0)%Z.
+Proof. exact port_occupancy_le_limit. Qed.
+Print Assumptions C09_port_occupancy_le_limit.
+
+(* packets_received = accepted + packets_dropped, in every reachable state *)
+Theorem C09_port_counters : forall (c : pcfg) (t0 : Q) (acts : list paction) (s : port) (tr : list pev),
+  port_run c (port0 t0) acts = Some (s, tr) ->
+  precv s = Z.of_nat (length (puts tr)) /\ pdrop s = Z.of_nat (length (dropped tr)) /\
+  precv s = (Z.of_nat (length (accepted tr)) + pdrop s)%Z.
+Proof. exact port_counters. Qed.
+Print Assumptions C09_port_counters.
+
+(* the advertised byte occupancy equals the bytes actually held, in every reachable state, for every rate *)
+Theorem C09_port_bytes_exact : forall (c : pcfg) (t0 : Q) (acts : list paction) (s : port) (tr : list pev),
+  c_fix_rate0 c = true -> port_run c (port0 t0) acts = Some (s, tr) -> pbytes s = sum_sizes (port_held s).
+Proof. exact port_bytes_exact. Qed.
+Print Assumptions C09_port_bytes_exact.
+
+(* PortMonitor: bytes with the packet in service = bytes held; without = bytes held minus the packet in
+   transmission; packets = len(store.items) (+ busy); outside the instant in which a granted packet travels to
+   the server these are the numbers of packets held / waiting *)
+Theorem C09_monitor_samples : forall (c : pcfg) (t0 : Q) (acts : list paction) (s : port) (tr : list pev) (incl : bool),
+  c_fix_rate0 c = true -> c_fix_mon c = true -> port_run c (port0 t0) acts = Some (s, tr) ->
+  exists n b, port_act c s (PSample incl) = Some (s, [OSample n b]) /\
+    b = (if incl then sum_sizes (port_held s) else sum_sizes (map snd (W s))) /\
+    n = (Z.of_nat (length (items (pq s))) + (if incl then busy_flag s else 0))%Z /\
+    ((forall x, get (pq s) <> GGranted x) ->
+       n = Z.of_nat (length (if incl then port_held s else map snd (W s)))).
+Proof. exact monitor_samples. Qed.
+Print Assumptions C09_monitor_samples.
+
+(* every put() stamps perhop_time[element id] = the instant of the put, accepted or refused; nothing else stamps *)
+Theorem C09_port_perhop_stamp : forall rate qlimit lb eid s0 acts s tr,
+  port_run (port_cfg all_fixed rate qlimit lb eid) s0 acts = Some (s, tr) -> Forall (stamped_as eid) tr.
+Proof. exact port_perhop_stamp_eid. Qed.
+Print Assumptions C09_port_perhop_stamp.
+
+Theorem C09_red_perhop_stamp : forall rate rc eid s0 acts s tr,
+  port_run (red_cfg all_fixed rate rc eid) s0 acts = Some (s, tr) -> Forall (stamped_as eid) tr.
+Proof. exact red_perhop_stamp_eid. Qed.
+Print Assumptions C09_red_perhop_stamp.
+
+(* REDPort: the average follows the EWMA recurrence with gain 2^-w on every arrival and only then *)
+Theorem C09_red_avg : forall f rate rc eid s p u s' outs,
+  port_act (red_cfg f rate rc eid) s (PPut p u) = Some (s', outs) ->
+  pavg s' == pavg s * (1 - Qpower 2 (- r_w rc)) + red_cur rc s * Qpower 2 (- r_w rc).
+Proof. exact red_avg. Qed.
+Print Assumptions C09_red_avg.
+
+Theorem C09_red_avg_unchanged : forall c s a s' outs,
+  port_act c s a = Some (s', outs) -> (forall p u, a <> PPut p u) -> pavg s' = pavg s.
+Proof. exact red_avg_unchanged. Qed.
+Print Assumptions C09_red_avg_unchanged.
+
+Theorem C09_red_no_drop_below_min : forall f rate rc eid s p u s' outs,
+  red_wf rc -> port_act (red_cfg f rate rc eid) s (PPut p u) = Some (s', outs) ->
+  pavg s' < r_min rc -> ~ In (ODrop p) outs /\ u = None.
+Proof. exact red_no_drop_below_min. Qed.
+Print Assumptions C09_red_no_drop_below_min.
+
+Theorem C09_red_drop_at_limit : forall f rate rc eid s p u s' outs,
+  port_act (red_cfg f rate rc eid) s (PPut p u) = Some (s', outs) ->
+  r_qlimit rc <= pavg s' -> In (ODrop p) outs /\ u = None.
+Proof. exact red_drop_at_limit. Qed.
+Print Assumptions C09_red_drop_at_limit.
+
+(* in between one uniform draw u is consumed and the packet is refused iff u <= p(avg), p the RED curve *)
+Theorem C09_red_curve : forall f rate rc eid s p u s' outs,
+  red_wf rc -> port_act (red_cfg f rate rc eid) s (PPut p u) = Some (s', outs) ->
+  r_min rc <= pavg s' -> pavg s' < r_qlimit rc ->
+  exists x, u = Some x /\
+    (In (ODrop p) outs <->
+     x <= (if Qlt_le_dec (pavg s') (r_max rc)
+           then r_maxp rc * ((pavg s' - r_min rc) / (r_max rc - r_min rc)) else r_maxp rc)).
+Proof. exact red_curve_rule. Qed.
+Print Assumptions C09_red_curve.
+
+(* ---- the code as found, one repair withheld at a time, violates the statements ---- *)
+Theorem C09_port_drop_rule_refuted_before_fix :
+  exists acts s tr p s' outs,
+    let c := port_cfg without_qlimit_fix 64 (Some 2%Z) false (Some 1%Z) in
+    port_run c (port0 0) acts = Some (s, tr) /\ port_act c s (PPut p None) = Some (s', outs) /\
+    ~ In (ODrop p) outs /\ tail_refuses (Some 2%Z) false s p.
+Proof. exact port_drop_rule_refuted_unfixed. Qed.
+Print Assumptions C09_port_drop_rule_refuted_before_fix.
+
+Theorem C09_port_unlimited_raises_before_fix :
+  forall rate lb eid s p, port_act (port_cfg without_qlimit_fix rate None lb eid) s (PPut p None) = None.
+Proof. exact port_unlimited_raises_unfixed. Qed.
+Print Assumptions C09_port_unlimited_raises_before_fix.
+
+Theorem C09_port_bytes_exact_refuted_before_fix :
+  exists acts s tr,
+    port_run (port_cfg without_rate0_fix 0 (Some 100%Z) true (Some 1%Z)) (port0 0) acts = Some (s, tr) /\
+    port_held s = [] /\ pbytes s = 10%Z.
+Proof. exact port_bytes_exact_refuted_unfixed. Qed.
+Print Assumptions C09_port_bytes_exact_refuted_before_fix.
+
+Theorem C09_port_perhop_stamp_refuted_before_fix :
+  exists acts s tr,
+    port_run (port_cfg without_stamp_fix 64 None false (Some 1%Z)) (port0 0) acts = Some (s, tr) /\
+    ~ Forall (stamped_as (Some 1%Z)) tr.
+Proof. exact port_perhop_stamp_refuted_unfixed. Qed.
+Print Assumptions C09_port_perhop_stamp_refuted_before_fix.
+
+Theorem C09_red_perhop_stamp_refuted_before_fix :
+  exists acts s tr,
+    port_run (red_cfg without_stamp_fix 64 {| r_min := 1; r_max := 3; r_maxp := 1 # 2; r_qlimit := 4; r_w := 0; r_lb := false |}
+                (Some 1%Z)) (port0 0) acts = Some (s, tr) /\
+    ~ Forall (stamped_as (Some 1%Z)) tr.
+Proof. exact red_perhop_stamp_refuted_unfixed. Qed.
+Print Assumptions C09_red_perhop_stamp_refuted_before_fix.
+
+Theorem C09_monitor_samples_refuted_before_fix :
+  exists acts s tr,
+    let c := port_cfg without_mon_fix 8 (Some 4%Z) false (Some 1%Z) in
+    port_run c (port0 0) acts = Some (s, tr) /\ sum_sizes (port_held s) = 8%Z /\
+    port_act c s (PSample true) = Some (s, [OSample 2 12]) /\ port_act c s (PSample false) = Some (s, [OSample 1 8]).
+Proof. exact monitor_samples_refuted_unfixed. Qed.
+Print Assumptions C09_monitor_samples_refuted_before_fix.
